@@ -29,6 +29,7 @@ import (
 	"go/types"
 	"os"
 	"path/filepath"
+	"runtime"
 	"sort"
 	"strings"
 )
@@ -166,6 +167,13 @@ func main() {
 		}
 	}
 
+	// the runtime picks among several ready cases of a select at random; the
+	// simulation owns that choice too (zsimrt.SetSelectSeed): one patched file
+	// of package runtime goes into the overlay
+	if err := patchRuntimeSelect(*out, overlay); err != nil {
+		die("runtime select patch: %v", err)
+	}
+
 	ob, _ := json.MarshalIndent(map[string]any{"Replace": overlay}, "", " ")
 	if err := os.WriteFile(filepath.Join(*out, "overlay.json"), ob, 0o644); err != nil {
 		die("%v", err)
@@ -173,6 +181,55 @@ func main() {
 	sort.Strings(rep.SkippedMapRanges)
 	rb, _ := json.MarshalIndent(rep, "", " ")
 	os.WriteFile(filepath.Join(*out, "report.json"), rb, 0o644)
+}
+
+const selectPatch = `
+
+// --- added by /verif/tools/instrument -------------------------------------
+// simSelectState is 0 outside simulated runs (the runtime's own randomness is
+// used); inside a run it is a splitmix64 state seeded by the simulation, so
+// that the poll order of every select is a function of the run's seed and of
+// the (serialised, hence reproducible) sequence of selects executed so far.
+var simSelectState uint64
+
+//go:linkname simSelectSet
+func simSelectSet(v uint64) { simSelectState = v }
+
+func selectrandn(n uint32) uint32 {
+	if simSelectState == 0 {
+		return cheaprandn(n)
+	}
+	simSelectState += 0x9e3779b97f4a7c15
+	z := simSelectState
+	z = (z ^ (z >> 30)) * 0xbf58476d1ce4e5b9
+	z = (z ^ (z >> 27)) * 0x94d049bb133111eb
+	z ^= z >> 31
+	return uint32(((z >> 32) * uint64(n)) >> 32)
+}
+`
+
+func patchRuntimeSelect(out string, overlay map[string]string) error {
+	goroot := runtime.GOROOT()
+	if v := os.Getenv("GOROOT"); v != "" {
+		goroot = v
+	}
+	src := filepath.Join(goroot, "src", "runtime", "select.go")
+	b, err := os.ReadFile(src)
+	if err != nil {
+		return err
+	}
+	const call = "j := cheaprandn(uint32(norder + 1))"
+	if bytes.Count(b, []byte(call)) != 1 {
+		return fmt.Errorf("%s: expected exactly one %q", src, call)
+	}
+	b = bytes.Replace(b, []byte(call), []byte("j := selectrandn(uint32(norder + 1))"), 1)
+	b = append(b, []byte(selectPatch)...)
+	dst := filepath.Join(out, "runtime_select.go")
+	if err := os.WriteFile(dst, b, 0o644); err != nil {
+		return err
+	}
+	overlay[src] = dst
+	return nil
 }
 
 func hasConstraint(f *ast.File) bool {
@@ -427,8 +484,8 @@ func (r *rewriter) expr(e ast.Expr) ast.Expr {
 			if id, ok := sel.X.(*ast.Ident); ok && id.Name == r.timeName {
 				if fl, ok := e.Args[1].(*ast.FuncLit); ok {
 					r.usesZ = true
-					enter := &ast.ExprStmt{X: call(z("Enter"), r.site("afterfunc"))}
-					fl.Body.List = append([]ast.Stmt{enter}, fl.Body.List...)
+					// the creation ticket is drawn when the callback is registered
+					e.Args[1] = call(z("Spawned"), r.site("afterfunc"), fl)
 				} else {
 					rep.SkippedSites = append(rep.SkippedSites, r.pos(e)+": AfterFunc with non-literal func")
 				}
@@ -716,10 +773,12 @@ func (r *rewriter) goStmt(s *ast.GoStmt) ast.Stmt {
 		pre = append(pre, &ast.AssignStmt{Lhs: []ast.Expr{t}, Tok: token.DEFINE, Rhs: []ast.Expr{a}})
 		c.Args[i] = t
 	}
+	ticket := r.tmp("s")
+	pre = append(pre, &ast.AssignStmt{Lhs: []ast.Expr{ticket}, Tok: token.DEFINE, Rhs: []ast.Expr{call(z("Spawn"))}})
 	lit := &ast.FuncLit{
 		Type: &ast.FuncType{Params: &ast.FieldList{}},
 		Body: &ast.BlockStmt{List: []ast.Stmt{
-			&ast.ExprStmt{X: call(z("Enter"), site)},
+			&ast.ExprStmt{X: call(z("EnterSeq"), site, ticket)},
 			&ast.ExprStmt{X: c},
 		}},
 	}
